@@ -19,6 +19,8 @@ use std::time::Instant;
 pub fn cfg_name() -> &'static str {
     if cfg!(feature = "all") {
         "cfg-all"
+    } else if cfg!(feature = "arb") {
+        "cfg-arb"
     } else {
         match (cfg!(feature = "g"), cfg!(feature = "l"), cfg!(feature = "t")) {
             (false, false, false) => "cfg-000",
